@@ -37,4 +37,13 @@ theorem eventbus_defaultCapacity : Facts.c19_eventbus_defaultCapacity = 0 := by 
 
 theorem rpc_maxQueryLength : Facts.c19_rpc_maxQueryLength = 512 := by decide
 
+/-- the indexer service's two subscriptions are unbuffered (a buffered one is cancelled when it
+overflows and the service never looks at `Cancelled()`: indexing would stop silently); model and
+stream: the service is an always-ready unbuffered reader that sees every header and tx -/
+theorem service_subscribes_unbuffered : Facts.c19_service_subscribes_unbuffered = true := by decide
+theorem service_never_subscribes_buffered : Facts.c19_service_subscribes_buffered = false := by decide
+
+/-- per header: index the block's events, then the batch of its txs (model: `svcblock` step) -/
+theorem service_order : Facts.c19_service_order = ["SubscribeUnbuffered", "Index", "AddBatch"] := by decide
+
 end Tmv.Expect.C19
